@@ -149,12 +149,23 @@ def c10(ctx):
         core.coverage_evidence(ctx, ['c10', 'c16'], ['/repo/src/lib.rs', '/repo/src/hazmat.rs', '/repo/src/traits.rs'])
 
 
+def cbuild_mod():
+    import cbuild
+    return cbuild
+
+
 def kernel_sweeps(ctx, scale):
     """The kernel sweep shared by C05 (outputs) and C07 (memory/ABI): C side by symbol in both
     cdrv variants, Rust side through Platform in the three crate flavours."""
     ctx.cdrv_kernels = {}
     core.cdrv_run(ctx, "kernels/cdrv-asm", "asm", "native", "kernels", scale=scale)
     core.cdrv_run(ctx, "kernels/cdrv-int", "int", "native", "kernels", scale=scale * 0.5)
+    core.cdrv_run(ctx, "kernels/cdrv-int-clang-O0", "int", "clangO0", "kernels", scale=scale * 0.1, exe=cbuild_mod().build("int", "clangO0"))
+    # the library's own preprocessor configurations (a kernel's tail hands over to another level)
+    import cbuild
+    for tag, ld in (("no-sse41", ["-DBLAKE3_NO_SSE41"]), ("no-avx512-no-avx2", ["-DBLAKE3_NO_AVX512", "-DBLAKE3_NO_AVX2"]), ("no-sse2", ["-DBLAKE3_NO_SSE2"])):
+        core.cdrv_run(ctx, "kernels/cdrv-int-" + tag, "int", "native", "kernels", scale=scale * 0.15,
+                      exe=cbuild.build("int", "native", name="cdrv_int_" + tag.replace("-", "_"), lib_defs=ld))
     ctx.mon("kernels/rust-asm", "asm", "debug", ["kern", "--scale", str(scale)])
     ctx.mon("kernels/rust-intr", "intr", "debug", ["kern", "--scale", str(scale * 0.5)])
     ctx.mon("kernels/rust-pure", "pure", "debug", ["kern", "--scale", str(scale * 0.5)])
@@ -241,8 +252,17 @@ def c05(ctx):
 
 
 def c06(ctx):
-    core.cdrv_run(ctx, "api/cdrv-asm", "asm", "native", "api", scale=1.0)
-    core.cdrv_run(ctx, "api/cdrv-int", "int", "native", "api", scale=1.0)
+    # a call that dies instead of returning its result is a C06 violation as well as a C07 one
+    died = lambda sig: sig.startswith("C07/api/") and "fatal-signal" in sig
+    core.cdrv_run(ctx, "api/cdrv-asm", "asm", "native", "api", scale=1.0, adopt=died)
+    core.cdrv_run(ctx, "api/cdrv-int", "int", "native", "api", scale=1.0, adopt=died)
+    import cbuild
+    for tag, ld in (("no-sse41", ["-DBLAKE3_NO_SSE41"]), ("no-avx512-no-avx2", ["-DBLAKE3_NO_AVX512", "-DBLAKE3_NO_AVX2"]), ("no-sse2", ["-DBLAKE3_NO_SSE2"])):
+        core.cdrv_run(ctx, "api/cdrv-int-" + tag, "int", "native", "api", scale=0.25, adopt=died,
+                      exe=cbuild.build("int", "native", name="cdrv_int_" + tag.replace("-", "_"), lib_defs=ld))
+    # the intrinsics flavour as clang builds it without optimisation (aligned-access assumptions that
+    # an optimiser happens to hide)
+    core.cdrv_run(ctx, "api/cdrv-int-clang-O0", "int", "clangO0", "api", scale=0.25, adopt=died, exe=cbuild.build("int", "clangO0"))
     # size classes no op-script reaches: one call that moves more than 2^32 bytes (one at a time:
     # each probe holds 4-8 GiB)
     core.cdrv_big(ctx, "huge/finalize-2^32+10", "asm", "finalize", (1 << 32) + 10)
